@@ -1,6 +1,7 @@
 import GraafVerif.Driver.Common
 import GraafVerif.Model.Dfs
 import GraafVerif.Spec.Dfs
+import GraafVerif.Spec.OracleFast
 /-!
 Driver handlers for C06.
 
@@ -101,78 +102,14 @@ def parseObs (kind : Kind) (observed : List V) :
     | .pred, [a] => if a == V.a "panic" then some none else none
     | _, _ => none
 
-/-- Out-forest test for the light path: every vertex has at most one in-arc, the sources none,
-sources distinct and in range, arcs in range. Returns the parent array. -/
-def forestParents (g : Graph) (S : List Nat) : Option (Array (Option Nat)) := Id.run do
-  let mut par : Array (Option Nat) := Array.replicate g.n none
-  for u in [0:g.n] do
-    for v in g.out u do
-      if v ≥ g.n || v == u || par[v]!.isSome then return none
-      par := par.set! v (some u)
-  let mut isSrc : Array Bool := Array.replicate g.n false
-  for s in S do
-    if s ≥ g.n || isSrc[s]! || par[s]!.isSome then return none
-    isSrc := isSrc.set! s true
-  return some par
-
-/-- Array-based oracle for OUT-FORESTS whose sources are roots (every vertex is pushed at most once,
-so no stale entry exists and the full property must hold). Same rules as `Spec/Dfs.lean`, where
-"`u` has an unyielded out-neighbour" becomes a counter because every vertex has a single parent.
-Used alone for orders above 4096 (the list-based model and `annotate` are quadratic), and as a
-self-check against `annotate` on every small forest case. `none` = accepted. -/
-def forestJudge (g : Graph) (S : List Nat) (par : Array (Option Nat)) (xs : List Nat)
-    (depths : Option (List Nat)) (preds : Option (List (Option Nat))) (tree : Option (List (Option Nat))) :
-    Option String := Id.run do
-  let n := g.n
-  let reach := (reachSetB g S).toArray
-  let xsA := xs.toArray
-  let dA := (depths.getD []).toArray
-  let pA := (preds.getD []).toArray
-  let mut seen : Array Bool := Array.replicate n false
-  let mut depth : Array Nat := Array.replicate n 0
-  let mut remaining : Array Nat := (Array.range n).map (fun u => (g.out u).length)
-  let mut path : List Nat := []
-  let mut opened : Nat := 0   -- unyielded out-neighbours of yielded vertices
-  for i in [0:xsA.size] do
-    let x := xsA[i]!
-    if x ≥ n then return some s!"item {i+1}: vertex {x} out of range"
-    if !reach[x]! then return some s!"vertex {x} yielded but not reachable"
-    if seen[x]! then return some s!"vertex {x} yielded twice"
-    let rem := remaining
-    path := path.dropWhile (fun d => rem[d]! == 0)
-    let (wantP, wantD) : Option Nat × Nat ← match path with
-      | [] =>
-        if !S.contains x || opened != 0 then
-          return some s!"item {i+1} (vertex {x}) is not a valid depth-first step (not a permitted root)"
-        pure (none, 0)
-      | p :: _ =>
-        if par[x]! != some p then
-          return some s!"item {i+1} (vertex {x}) is not a valid depth-first step (deepest open vertex is {p})"
-        pure (some p, depth[p]! + 1)
-    if depths.isSome && dA[i]? != some wantD then return some s!"item {i+1} (vertex {x}): depth {wantD} expected"
-    if preds.isSome && pA[i]? != some wantP then return some s!"item {i+1} (vertex {x}): predecessor {wantP} expected"
-    seen := seen.set! x true
-    depth := depth.set! x wantD
-    opened := opened + (g.out x).length
-    if let some p := wantP then
-      remaining := remaining.set! p (remaining[p]! - 1)
-      opened := opened - 1
-    path := x :: path
-  let nReach := reach.foldl (fun c b => if b then c + 1 else c) 0
-  if nReach != xsA.size then
-    return some s!"{nReach - xsA.size} reachable vertices never yielded ({xsA.size} yielded)"
-  if let some t := tree then
-    let tA := t.toArray
-    if tA.size != n then return some "predecessors() has the wrong length"
-    for v in [0:n] do
-      if tA[v]! != (if seen[v]! then par[v]! else none) then
-        return some s!"predecessors()[{v}] is not the search-tree parent"
-  return none
-
-/-- Orders above 4096: oracle only (no model, hence never MISMATCH / KNOWN), out-forests only. -/
+/-- Orders above 4096: oracle only (no model, hence never MISMATCH / KNOWN), out-forests whose
+sources are roots only (every vertex is pushed at most once, so no stale entry exists and the full
+property must hold).  `forestParentsRec` / `forestJudgeRec` (`Spec/OracleFast.lean`) are PROVED:
+acceptance ↔ `DfsOK` / `DfsDistOK` / `DfsPredOK` (`GraafVerif.OraclesFast.forestJudgeRec_dfs/_dist/_pred`,
+`forestParentsRec_sound`, `forest_wf_ofRows`). -/
 def runLight (kind : Kind) (d : GDesc) (S : List Nat) (fam : String) (observed : List V) : Option Verdict := do
   let g := d.graph
-  let par ← forestParents g S
+  let par ← forestParentsRec g S
   let parsed ← parseObs kind observed
   let tags := [ "repr-" ++ d.repr, sizeTag g.n, "fam-" ++ (fam.splitOn ":").headD "none", "oracle-only" ]
   match parsed with
@@ -180,7 +117,7 @@ def runLight (kind : Kind) (d : GDesc) (S : List Nat) (fam : String) (observed :
     pure { status := "PROPFAIL", nontrivial := true, tags := "res-panic" :: tags,
            detail := "the search panicked on a digraph with in-range arcs and in-range sources" }
   | some (xs, depths, preds, tree, _) =>
-    match forestJudge g S par xs depths preds tree with
+    match forestJudgeRec g S par xs depths preds tree with
     | none => pure { status := "OK", nontrivial := true, tags := "res-complete" :: tags }
     | some w => pure { status := "PROPFAIL", nontrivial := true, tags := "res-bad" :: tags, detail := w }
 
@@ -225,12 +162,12 @@ def run (kind : Kind) (d : GDesc) (S : List Nat) (fam : String) (observed : List
       | some ann, some tree =>
         if tree == forestOf g.n ann then .ok else .bad "predecessors() is not the forest of the DfsPred search"
       | _, _ => .ok
-    -- self-check of the Array-based forest oracle against the specification's `annotate`
-    let (agree, tags) : Bool × List String := match forestParents g S with
+    -- run-time cross-check of the (proved) forest judge against the specification's `annotate`
+    let (agree, tags) : Bool × List String := match forestParentsRec g S with
       | none => (true, tags)
       | some par =>
         let accepted := match j, jt with | .ok, .ok => true | _, _ => false
-        ((forestJudge g S par xs depths preds tree).isNone == accepted, "forest-xcheck" :: tags)
+        ((forestJudgeRec g S par xs depths preds tree).isNone == accepted, "forest-xcheck" :: tags)
     if !agree then none else
     match j, jt with
     | .bad w, _ => pure { status := "PROPFAIL", nontrivial := nt, tags := "res-bad" :: tags, detail := w }
